@@ -123,6 +123,11 @@ def items(tier):
         for bi, b in enumerate(BINS):
             out.append({"shape": ["full2", "prob2", "full3"][(mi + bi) % 3], "metric": name, "axis": [None, "threshold", "leadtime"][(mi + bi) % 3],
                         "type": "csv", "variant": "one-b:" + b, "k": mi + bi, "kind": "text"})
+    # every metric and diagram with a climatology file (-c / -C) that holds observations and forecasts only (a climatology needs no
+    # probabilities: only its forecast is used)
+    for mi, name in enumerate(names):
+        out.append({"shape": "full2", "metric": name, "axis": None, "type": "csv" if name in mrun.ALL else "plot", "variant": "one", "k": mi,
+                    "kind": "text", "clim": ["-c", "-C"][mi % 2]})
     # every diagram on every -x value (drawn), every metric on every -x value (csv), on two shapes whose dimensions have different
     # lengths in both directions (more lead times than times and the converse), so that an index meant for one dimension cannot
     # pass for another
@@ -178,6 +183,8 @@ def run_item(ctx, item, paths):
     if item.get("first_only"):
         paths = list(paths)[:1]
     args = list(paths) + ["-m", item["metric"]]
+    if item.get("clim"):
+        args += [item["clim"], files_for(ctx, "det1", "text")[0]]
     if item["axis"] is not None:
         args += ["-x", item["axis"]]
     args += ["-type", item["type"]]
@@ -223,7 +230,7 @@ def check_item(item, ctx):
         return check_generated(item, ctx)
     paths = files_for(ctx, item["shape"], item.get("kind", "text"))
     r, out, args = run_item(ctx, item, paths)
-    ctx.nt((item["metric"], item["axis"], item["type"], item["variant"], item["shape"], item.get("k"), item.get("kind"), item.get("first_only")))
+    ctx.nt((item["metric"], item["axis"], item["type"], item["variant"], item["shape"], item.get("k"), item.get("kind"), item.get("first_only"), item.get("clim")))
     if item["metric"] in ("ets", "reliability", "mae") and item["type"] in ("plot", "csv"):
         ctx.sample({"combination": {k: item[k] for k in ("metric", "axis", "type", "variant", "shape")}, "outcome": "exception" if r.exc else ("error-exit" if r.exit else "ok")})
     judge(ctx, item, r, out, args)
